@@ -143,4 +143,21 @@ example : (sqlCluster strEnc C12.Ex1).map (fun r => (r.getD 0 Val.null, r.getD 1
     [(4, 1), (2, 2), (7, 1), (5, 2), (3, 0), (1, 1), (6, 0), (0, 0), (8, 8)].map
       fun (p : Int × Int) => (Val.int p.1, Val.int p.2) := by decide +kernel
 
+/-- Why the refinement carries `TieFree`: records `a0 b1 b2`, dataset `b` duplicate-free, two edges `1–0`, `2–0` of EQUAL
+probability.  SQL's `row_number()` gives rank 1 to exactly one of the two tied rows of a partition (which one is the
+engine's choice), so a real engine merges only one `b` record with `a0` (and `C12.dupfree_respected` holds for every
+tie-break oracle); `Rel.rowNumber` numbers both tied rows 1 — the union of the admissible outcomes — and the pipeline
+under `Rel.eval` then accepts both rows and returns ONE cluster holding `b1` and `b2`, an outcome no engine produces.
+On tied inputs `Rel.eval` of these statements is therefore not a model of the engines, and nothing is claimed. -/
+def Tied3 : Inst where
+  n := 3
+  ds := fun v => if v = 0 then 0 else 1
+  dupFree := [1]
+  edges := [(1, 0, 7), (2, 0, 7)]
+  thr := none
+
+example : ¬ TieFree Tied3 := by decide
+example : (sqlCluster strEnc Tied3).map (fun r => (r.getD 0 Val.null, r.getD 1 Val.null)) =
+    [(1, 0), (2, 0), (0, 0)].map fun (p : Int × Int) => (Val.int p.1, Val.int p.2) := by decide +kernel
+
 end SplinkVerif.C12Sql
